@@ -93,6 +93,55 @@ Fixpoint concat_displays (args : list value) : res str :=
   | a :: r => do s <- to_display a; do t <- concat_displays r; Ok (s ++ t)
   end.
 
+(** [parseDate] on the one format the harness generates — RFC 3339 in UTC,
+    YYYY-MM-DDTHH:MM:SS[.f{1,9}]Z, years 1678..2261 — for which dtparse's answer is the obvious
+    instant; every other text is outside the model ([Unm]) *)
+Definition two_digits (a b : N) : option Z :=
+  if is_digit a && is_digit b then Some (Z.of_N ((a - 48) * 10 + (b - 48))) else None.
+Definition days_from_civil (y m d : Z) : Z :=
+  let y' := if m <=? 2 then y - 1 else y in
+  let era := y' / 400 in
+  let yoe := y' - era * 400 in
+  let mp := if 2 <? m then m - 3 else m + 9 in
+  let doy := (153 * mp + 2) / 5 + d - 1 in
+  let doe := yoe * 365 + yoe / 4 - yoe / 100 + doy in
+  era * 146097 + doe - 719468.
+Definition days_in_month (y m : Z) : Z :=
+  if (m =? 2) then (if ((y mod 4 =? 0) && negb (y mod 100 =? 0)) || (y mod 400 =? 0) then 29 else 28)
+  else if (m =? 4) || (m =? 6) || (m =? 9) || (m =? 11) then 30 else 31.
+Definition parse_rfc3339_utc (s : str) : option Z :=
+  match s with
+  | y1 :: y2 :: y3 :: y4 :: 45%N :: m1 :: m2 :: 45%N :: d1 :: d2 :: 84%N :: h1 :: h2 :: 58%N :: i1 :: i2 :: 58%N :: s1 :: s2 :: rest =>
+      match two_digits y1 y2, two_digits y3 y4, two_digits m1 m2, two_digits d1 d2, two_digits h1 h2, two_digits i1 i2, two_digits s1 s2 with
+      | Some ya, Some yb, Some mo, Some dd, Some hh, Some mi, Some ss =>
+          let y := ya * 100 + yb in
+          let frac : option Z :=
+            match rest with
+            | [90%N] => Some 0
+            | 46%N :: r =>
+                let '(ds, r') := take_digits r in
+                match r' with
+                | [90%N] =>
+                    let n := length ds in
+                    if (Nat.leb 1 n && Nat.leb n 9)%bool
+                    then Some (Z.of_N (digits_val ds 0) * 10 ^ Z.of_nat (9 - n)) else None
+                | _ => None
+                end
+            | _ => None
+            end in
+          match frac with
+          | Some fr =>
+              if (1678 <=? y) && (y <=? 2261) && (1 <=? mo) && (mo <=? 12) && (1 <=? dd) && (dd <=? days_in_month y mo)
+                 && (hh <? 24) && (mi <? 60) && (ss <? 60)
+              then Some ((((days_from_civil y mo dd * 24 + hh) * 60 + mi) * 60 + ss) * 1000000000 + fr)
+              else None
+          | None => None
+          end
+      | _, _, _, _, _, _, _ => None
+      end
+  | _ => None
+  end.
+
 Definition eval_func (f : str) (args : list value) : res value :=
   if is_name f "abs" then float1 fabs args
   else if is_name f "ceil" then float1 fceil args
@@ -166,6 +215,11 @@ Definition eval_func (f : str) (args : list value) : res value :=
              | Ok _ => Ok (VBool true) | Err => Ok (VBool false)
              | Panic => Panic | Unm => Unm end
     | _ => Err
+    end
+  else if is_name f "parseDate" then
+    match args with
+    | [VStr t] => match parse_rfc3339_utc t with Some ns => Ok (VDate ns) | None => Unm end
+    | _ => Unm
     end
   else Unm.
 
